@@ -137,6 +137,16 @@ class Sym:
             if "closure" in op:
                 return ("closure", op["closure"], ())
             if "def" in op and "promoted" not in op:
+                if op.get("v") is None and self.fb is not None and depth < 40:
+                    cb = getattr(self.fb, "const_bodies", {}).get(op.get("def_key"))
+                    if cb is not None:
+                        # generic constant: its initialiser, read symbolically (e.g. size_of::<H>())
+                        try:
+                            t = Sym(cb, self.fb).local(0, depth + 1)
+                            if not _has_cut(t) and not _contains(t, "phi"):
+                                return t
+                        except RecursionError:
+                            pass
                 return ("cname", op["def"], op.get("v"), op["ty"])
             if "promoted" in op:
                 return self._promoted(op)
